@@ -97,3 +97,113 @@ Example C12_nonvacuous :
   (let b : nat -> key -> nat := fun _ _ => 0%nat in
    n_added (cls_add 1 b empty [7] 1000) = n_added (iter_add 1 b empty [7] 1000)).
 Proof. repeat split; vm_compute; reflexivity. Qed.
+
+(* ---------------- source tie (n-gram drivers) ----------------
+   _add_ngram_linear / _add_ngram_log16 / _add_ngram_log8 (countmin.py), _add_ngram (hyperloglog.py), _add_ngram
+   (heavyhitters.py) as regenerated from the source AST on this run (generated/KernelsNgram.v, harness/pytrans_ngram.py).
+   Per driver T: gen_ngram_T_key_len (len(key) -> key_len), gen_ngram_T_whole (the test of the `if`), gen_ngram_T_count (the
+   argument of range), gen_ngram_T_lo / _hi (the slice bounds), gen_ngram_T_mult (the multiplicity literal, None when the
+   single-add kernel takes none), gen_ngram_T_threads_ptr (the driver returns the value both branches assign from the
+   kernel).  The translator rejects a driver whose two branches do not call the same, expected single-add kernel with the
+   driver's own arguments in order, differing in the key argument only (whole key / slice); the kernel's name is pinned in
+   the tie files (tie_ngram_T_callee).  KernelTieNgram.driver_windows is the hand-written assembly of the pieces: the
+   list of keys handed to the single-add kernel.  driver_ok pins each piece to the model's expression (the test only
+   away from key_len = ngram, where either branch adds exactly the whole key).
+   The ties hold for every 0 <= ngram < 2^64, ngram = 0 included (the bound wraps to key_len + 1 empty windows, in the
+   source as in Ngram.ngram_windows), and every key shorter than 2^63 bytes. *)
+From Sketchnu Require KernelsNgram KernelTieNgram.
+Theorem C12_ngram_source_tie_assembly : forall (klf : Z -> Z) (whole : Z -> Z -> bool) (count lo hi : Z -> Z -> Z),
+  KernelTieNgram.driver_ok klf whole count lo hi ->
+  forall (k : key) (n : Z), 0 <= n < 2^64 -> zlen k < 2^63 ->
+  KernelTieNgram.driver_windows klf whole count lo hi k n = ngram_windows k n.
+Proof. exact KernelTieNgram.driver_windows_model. Qed.
+Print Assumptions C12_ngram_source_tie_assembly.
+
+From Sketchnu Require KernelTieNgramLinear.
+Theorem C12_ngram_source_tie_linear :
+  KernelTieNgram.driver_ok KernelsNgram.gen_ngram_linear_key_len KernelsNgram.gen_ngram_linear_whole KernelsNgram.gen_ngram_linear_count
+                           KernelsNgram.gen_ngram_linear_lo KernelsNgram.gen_ngram_linear_hi /\
+  (forall (k : key) (n : Z), 0 <= n < 2^64 -> zlen k < 2^63 -> KernelTieNgramLinear.ngram_linear_windows k n = ngram_windows k n) /\
+  (forall (k : key) (n : Z), 1 <= n < 2^64 -> zlen k < 2^63 -> KernelTieNgramLinear.ngram_linear_windows k n = windows (Z.to_nat n) k) /\
+  (KernelsNgram.gen_ngram_linear_mult = Some 1 /\ KernelsNgram.gen_ngram_linear_threads_ptr = false) /\
+  (forall depth bucket (s : CmsLinear.sk) (k : key) (n : Z), 0 <= n < 2^64 -> zlen k < 2^63 ->
+     CmsLinear.add_ngram depth bucket s k n =
+     fold_left (fun s0 w => CmsLinear.add_linear depth bucket s0 w (KernelTieNgram.mult_value KernelsNgram.gen_ngram_linear_mult))
+               (KernelTieNgramLinear.ngram_linear_windows k n) s).
+Proof. exact KernelTieNgramLinear.tie_ngram_linear. Qed.
+Print Assumptions C12_ngram_source_tie_linear.
+
+From Sketchnu Require KernelTieNgramLog16.
+Theorem C12_ngram_source_tie_log16 :
+  KernelTieNgram.driver_ok KernelsNgram.gen_ngram_log16_key_len KernelsNgram.gen_ngram_log16_whole KernelsNgram.gen_ngram_log16_count
+                           KernelsNgram.gen_ngram_log16_lo KernelsNgram.gen_ngram_log16_hi /\
+  (forall (k : key) (n : Z), 0 <= n < 2^64 -> zlen k < 2^63 -> KernelTieNgramLog16.ngram_log16_windows k n = ngram_windows k n) /\
+  (forall (k : key) (n : Z), 1 <= n < 2^64 -> zlen k < 2^63 -> KernelTieNgramLog16.ngram_log16_windows k n = windows (Z.to_nat n) k) /\
+  (KernelsNgram.gen_ngram_log16_mult = Some 1 /\ KernelsNgram.gen_ngram_log16_threads_ptr = true) /\
+  (forall depth bucket nr umax powneg castc (s : CmsLog.lsk) (k : key) (n : Z), 0 <= n < 2^64 -> zlen k < 2^63 ->
+     CmsLog.ladd_ngram depth bucket nr umax powneg castc s k n =
+     fold_left (fun s0 w => CmsLog.add_log depth bucket nr umax powneg castc s0 w (KernelTieNgram.mult_value KernelsNgram.gen_ngram_log16_mult))
+               (KernelTieNgramLog16.ngram_log16_windows k n) s).
+Proof. exact KernelTieNgramLog16.tie_ngram_log16. Qed.
+Print Assumptions C12_ngram_source_tie_log16.
+
+From Sketchnu Require KernelTieNgramLog8.
+Theorem C12_ngram_source_tie_log8 :
+  KernelTieNgram.driver_ok KernelsNgram.gen_ngram_log8_key_len KernelsNgram.gen_ngram_log8_whole KernelsNgram.gen_ngram_log8_count
+                           KernelsNgram.gen_ngram_log8_lo KernelsNgram.gen_ngram_log8_hi /\
+  (forall (k : key) (n : Z), 0 <= n < 2^64 -> zlen k < 2^63 -> KernelTieNgramLog8.ngram_log8_windows k n = ngram_windows k n) /\
+  (forall (k : key) (n : Z), 1 <= n < 2^64 -> zlen k < 2^63 -> KernelTieNgramLog8.ngram_log8_windows k n = windows (Z.to_nat n) k) /\
+  (KernelsNgram.gen_ngram_log8_mult = Some 1 /\ KernelsNgram.gen_ngram_log8_threads_ptr = true) /\
+  (forall depth bucket nr umax powneg castc (s : CmsLog.lsk) (k : key) (n : Z), 0 <= n < 2^64 -> zlen k < 2^63 ->
+     CmsLog.ladd_ngram depth bucket nr umax powneg castc s k n =
+     fold_left (fun s0 w => CmsLog.add_log depth bucket nr umax powneg castc s0 w (KernelTieNgram.mult_value KernelsNgram.gen_ngram_log8_mult))
+               (KernelTieNgramLog8.ngram_log8_windows k n) s).
+Proof. exact KernelTieNgramLog8.tie_ngram_log8. Qed.
+Print Assumptions C12_ngram_source_tie_log8.
+
+From Sketchnu Require KernelTieNgramHll.
+Theorem C12_ngram_source_tie_hll :
+  KernelTieNgram.driver_ok KernelsNgram.gen_ngram_hll_key_len KernelsNgram.gen_ngram_hll_whole KernelsNgram.gen_ngram_hll_count
+                           KernelsNgram.gen_ngram_hll_lo KernelsNgram.gen_ngram_hll_hi /\
+  (forall (k : key) (n : Z), 0 <= n < 2^64 -> zlen k < 2^63 -> KernelTieNgramHll.ngram_hll_windows k n = ngram_windows k n) /\
+  (forall (k : key) (n : Z), 1 <= n < 2^64 -> zlen k < 2^63 -> KernelTieNgramHll.ngram_hll_windows k n = windows (Z.to_nat n) k) /\
+  (KernelsNgram.gen_ngram_hll_mult = None /\ KernelsNgram.gen_ngram_hll_threads_ptr = false) /\
+  (forall (s : Hll.regs) (seed p m : Z) (k : key) (n : Z), 0 <= n < 2^64 -> zlen k < 2^63 ->
+     Hll.hll_add_ngram s seed p m k n =
+     fold_left (fun s0 w => Hll.hll_add s0 seed p m w)
+               (KernelTieNgramHll.ngram_hll_windows k n) s).
+Proof. exact KernelTieNgramHll.tie_ngram_hll. Qed.
+Print Assumptions C12_ngram_source_tie_hll.
+
+From Sketchnu Require KernelTieNgramHH.
+Theorem C12_ngram_source_tie_hh :
+  KernelTieNgram.driver_ok KernelsNgram.gen_ngram_hh_key_len KernelsNgram.gen_ngram_hh_whole KernelsNgram.gen_ngram_hh_count
+                           KernelsNgram.gen_ngram_hh_lo KernelsNgram.gen_ngram_hh_hi /\
+  (forall (k : key) (n : Z), 0 <= n < 2^64 -> zlen k < 2^63 -> KernelTieNgramHH.ngram_hh_windows k n = ngram_windows k n) /\
+  (forall (k : key) (n : Z), 1 <= n < 2^64 -> zlen k < 2^63 -> KernelTieNgramHH.ngram_hh_windows k n = windows (Z.to_nat n) k) /\
+  (KernelsNgram.gen_ngram_hh_mult = Some 1 /\ KernelsNgram.gen_ngram_hh_threads_ptr = false) /\
+  (forall depth max_key_len bucket (s : HH.sketch) (k : key) (n : Z), 0 <= n < 2^64 -> zlen k < 2^63 ->
+     HH.hh_add_ngram depth max_key_len bucket s k n =
+     fold_left (fun s0 w => HH.hh_add_raw depth max_key_len bucket s0 w (KernelTieNgram.mult_value KernelsNgram.gen_ngram_hh_mult))
+               (KernelTieNgramHH.ngram_hh_windows k n) s).
+Proof. exact KernelTieNgramHH.tie_ngram_hh. Qed.
+Print Assumptions C12_ngram_source_tie_hh.
+
+(* evaluated on the generated definitions: an ordinary key, key_len = ngram (one window, the key), key_len < ngram,
+   ngram = 0 (key_len + 1 empty windows; the empty key gives one), ngram = 2^64 - 1, the bound (its wrap at ngram = 0
+   included), the test away from key_len = ngram, the slice bounds and the multiplicities *)
+Example C12_ngram_source_tie_nonvacuous :
+  KernelTieNgramLinear.ngram_linear_windows [1;2;3;4] 2 = [[1;2];[2;3];[3;4]] /\
+  KernelTieNgramLog16.ngram_log16_windows [1;2;3] 3 = [[1;2;3]] /\
+  KernelTieNgramLog8.ngram_log8_windows [1;2;3] 7 = [[1;2;3]] /\
+  KernelTieNgramHll.ngram_hll_windows [1;2;3] 0 = [[];[];[];[]] /\
+  KernelTieNgramHH.ngram_hh_windows [] 0 = [[]] /\
+  KernelTieNgramHH.ngram_hh_windows [5;6] (2^64 - 1) = [[5;6]] /\
+  KernelTieNgramLinear.ngram_linear_windows [1;2;3] 0 = ngram_windows [1;2;3] 0 /\
+  (KernelsNgram.gen_ngram_linear_count 3 0, KernelsNgram.gen_ngram_log16_count 10 3, KernelsNgram.gen_ngram_log8_count 5 5,
+   KernelsNgram.gen_ngram_hll_count 0 0, KernelsNgram.gen_ngram_hh_count 7 1) = (4, 8, 1, 1, 7) /\
+  (KernelsNgram.gen_ngram_linear_whole 2 3, KernelsNgram.gen_ngram_log16_whole 4 3, KernelsNgram.gen_ngram_hh_whole 0 1) = (true, false, true) /\
+  (KernelsNgram.gen_ngram_log8_lo 7 3, KernelsNgram.gen_ngram_log8_hi 7 3, KernelsNgram.gen_ngram_hll_key_len 40) = (7, 10, 40) /\
+  (KernelsNgram.gen_ngram_linear_mult, KernelsNgram.gen_ngram_log16_mult, KernelsNgram.gen_ngram_log8_mult,
+   KernelsNgram.gen_ngram_hll_mult, KernelsNgram.gen_ngram_hh_mult) = (Some 1, Some 1, Some 1, None, Some 1).
+Proof. vm_compute. repeat split; reflexivity. Qed.
